@@ -211,6 +211,13 @@ fn bytes_field(o: &serde_json::Map<String, Value>, k: &str) -> Result<Vec<u8>, S
 // Types `T`
 // ---------------------------------------------------------------------------
 
+/// `VH_FROZEN=1`: every collection / UDT type is described as frozen (as a server describes nested ones and frozen columns);
+/// frozen-ness changes nothing about which values fit or how they are encoded.
+pub fn frozen_types() -> bool {
+    static F: std::sync::OnceLock<bool> = std::sync::OnceLock::new();
+    *F.get_or_init(|| std::env::var("VH_FROZEN").map(|v| v == "1").unwrap_or(false))
+}
+
 #[derive(Clone, Debug, PartialEq, Eq)]
 pub enum T {
     Native(String),
@@ -316,20 +323,20 @@ impl T {
                 other => unreachable!("native name {other} was validated on parse"),
             }),
             T::List(e) => ColumnType::Collection {
-                frozen: false,
+                frozen: frozen_types(),
                 typ: CollectionType::List(Box::new(e.to_column_type())),
             },
             T::Set(e) => ColumnType::Collection {
-                frozen: false,
+                frozen: frozen_types(),
                 typ: CollectionType::Set(Box::new(e.to_column_type())),
             },
             T::Map(a, b) => ColumnType::Collection {
-                frozen: false,
+                frozen: frozen_types(),
                 typ: CollectionType::Map(Box::new(a.to_column_type()), Box::new(b.to_column_type())),
             },
             T::Tuple(ts) => ColumnType::Tuple(ts.iter().map(T::to_column_type).collect()),
             T::Udt(fs) => ColumnType::UserDefinedType {
-                frozen: false,
+                frozen: frozen_types(),
                 definition: Arc::new(UserDefinedType {
                     name: UDT_NAME.into(),
                     keyspace: UDT_KEYSPACE.into(),
